@@ -60,3 +60,55 @@ Definition nth_pivot (i : nat) (m : matR) : R :=
   let '(p0, p1, p2, p3) := m2q_pivots RRing m in match i with 0%nat => p0 | 1%nat => p1 | 2%nat => p2 | _ => p3 end.
 Definition matrix_to_quat (i : nat) (m : matR) : quatR := qscal RRing (/ (2 * sqrt (nth_pivot i m))) (m2q_candidate RRing i m).
 Definition nth_comp (i : nat) (q : quatR) : R := match i with 0%nat => q0 q | 1%nat => q1 q | 2%nat => q2 q | _ => q3 q end.
+
+(* ---- as_euler: model of _quaternion_to_euler (Bernardes-Viollet) ---- *)
+(* atan2 as the polar angle in (-pi, pi] of the point (x, y) (= torch.atan2(y, x) away from the origin) *)
+Definition atan2 (y x : R) : R :=
+  let r := sqrt (x * x + y * y) in if Rlt_dec y 0 then - acos (x / r) else acos (x / r).
+Definition hypot (x y : R) : R := sqrt (x * x + y * y).
+(* (q - r) * (r - s) * (s - q) // 2 : +1 for an even, -1 for an odd permutation of (0,1,2) *)
+Definition perm_sign (q r s : nat) : R :=
+  IZR ((Z.of_nat q - Z.of_nat r) * (Z.of_nat r - Z.of_nat s) * (Z.of_nat s - Z.of_nat q) / 2).
+(* angles += (angles < -pi) * 2 pi; angles -= (angles > pi) * 2 pi *)
+Definition wrap_angle (x : R) : R :=
+  let x1 := if Rlt_dec x (- PI) then x + 2 * PI else x in if Rlt_dec PI x1 then x1 - 2 * PI else x1.
+Definition gimbal_eps : R := / 10000000.
+(* the quaternion with scalar part w and vector components vq, vr, vs at the stored positions q, r, s *)
+Definition of_comps (q r s : nat) (w vq vr vs : R) : quatR :=
+  set_comp RRing q vq (set_comp RRing r vr (set_comp RRing s vs (0, 0, 0, w))).
+(* the intermediate quantities of the algorithm: (symmetric, sign, a, b, c, d) *)
+Definition euler_abcd (quat : quatR) (q r s0 : nat) : bool * R * (R * R * R * R) :=
+  let symmetric := Nat.eqb q s0 in
+  let s := if symmetric then (3 - q - r)%nat else s0 in
+  let sign := perm_sign q r s in
+  let w := q3 quat in let cq := nth_comp q quat in let cr := nth_comp r quat in let cs := nth_comp s quat in
+  (symmetric, sign, if symmetric then (w, cq, cr, cs * sign) else (w - cr, cq + cs * sign, cr + w, cs * sign - cq)).
+Definition quaternion_to_euler (quat : quatR) (seq : nat * nat * nat) (extrinsic : bool) : R * R * R :=
+  let '(s0, s1, s2) := seq in
+  let '(q, r, s) := if extrinsic then (s0, s1, s2) else (s2, s1, s0) in
+  let '(symmetric, sign, (a, b, c, d)) := euler_abcd quat q r s in
+  let angles_1 := 2 * atan2 (hypot c d) (hypot a b) in
+  let case1 := if Rle_dec (Rabs angles_1) gimbal_eps then true else false in
+  let case2 := if Rle_dec (Rabs (angles_1 - PI)) gimbal_eps then true else false in
+  let half_sum := atan2 b a in
+  let half_diff := atan2 d c in
+  let angles_0 := half_sum - half_diff in
+  let angles_2 := half_sum + half_diff in
+  let angles_2 := if symmetric then angles_2 else angles_2 * sign in
+  let angles_1 := if symmetric then angles_1 else angles_1 - PI / 2 in
+  let '(angles_0, angles_2) := if extrinsic then (angles_0, angles_2) else (angles_2, angles_0) in
+  let regular := negb case1 && negb case2 in
+  let angles_2 := if regular then angles_2 else 0 in
+  let singular := (if case1 then 2 * half_sum else 0) + (if case2 then 2 * half_diff * (if extrinsic then -1 else 1) else 0) in
+  let singular := if negb symmetric && negb extrinsic then singular * sign else singular in
+  let angles_0 := if regular then angles_0 else singular in
+  (wrap_angle angles_0, wrap_angle angles_1, wrap_angle angles_2).
+(* the regularity condition tested by the code (case == 0) *)
+Definition euler_regular (quat : quatR) (seq : nat * nat * nat) (extrinsic : bool) : Prop :=
+  let '(s0, s1, s2) := seq in
+  let '(q, r, s) := if extrinsic then (s0, s1, s2) else (s2, s1, s0) in
+  let '(_, _, (a, b, c, d)) := euler_abcd quat q r s in
+  let angles_1 := 2 * atan2 (hypot c d) (hypot a b) in
+  gimbal_eps < Rabs angles_1 /\ gimbal_eps < Rabs (angles_1 - PI).
+Definition valid_seq (seq : nat * nat * nat) : Prop :=
+  let '(s0, s1, s2) := seq in (s0 < 3)%nat /\ (s1 < 3)%nat /\ (s2 < 3)%nat /\ s0 <> s1 /\ s1 <> s2.
